@@ -28,7 +28,7 @@ type Op struct {
 	Via     string `json:"via,omitempty"`     // update: hold | try | async
 	Peek    string `json:"peek,omitempty"`    // update: "" | before | after (take a wait channel inside the same section)
 	Pre     bool   `json:"pre,omitempty"`     // wait: context already cancelled
-	Dl      int    `json:"dl,omitempty"`      // wait: deadline context (1 = already expired, 2 = expires after 10ms of virtual time)
+	Dl      int    `json:"dl,omitempty"`      // wait: deadline context (1 = already expired, 2 = expires after 10ms of virtual time, 3 = deadline passed but not cancelled)
 	Twice   bool   `json:"twice,omitempty"`   // update: broadcast(); getWaitCh(); broadcast() inside one critical section
 	Panic   bool   `json:"panic,omitempty"`   // update: the callback panics after its broadcast (the caller recovers)
 	Pick    int    `json:"pick,omitempty"`
@@ -59,7 +59,7 @@ func genCase(t *rapid.T) Case {
 			op.Pre = rapid.IntRange(0, 11).Draw(t, "pre") == 0
 			op.PredAct = rapid.IntRange(0, 4).Draw(t, "predact") == 0
 			if rapid.IntRange(0, 5).Draw(t, "hasdl") == 0 {
-				op.Dl = rapid.IntRange(1, 2).Draw(t, "dl")
+				op.Dl = rapid.IntRange(1, 3).Draw(t, "dl")
 			}
 		case "update":
 			op.Twice = rapid.IntRange(0, 5).Draw(t, "twice") == 0
@@ -105,6 +105,11 @@ func errState(e int) int {
 	}
 	return e
 }
+
+// overdue reports a deadline in the past without being done.
+type overdue struct{ context.Context }
+
+func (o overdue) Deadline() (time.Time, bool) { return time.Now().Add(-time.Second), true }
 
 func closed(ch <-chan struct{}) bool {
 	select {
@@ -220,6 +225,10 @@ func body(c *sched.Ctl, cs Case, v *ev.Verdict) {
 			case 2:
 				ctx, cancel = context.WithTimeout(context.Background(), 10*time.Millisecond)
 				w.deadline = true
+			case 3:
+				// its deadline has passed but nobody has cancelled it (yet): what every deadline
+				// context looks like between the deadline instant and the run of its timer
+				ctx = overdue{ctx}
 			}
 			w.cancel = cancel
 			if op.Pre {
